@@ -1,6 +1,7 @@
 #!/bin/bash
 # re-runs every seeded change against the check of the property it was written for; prints one line per seed.
+# optional argument: a regular expression selecting seed ids (e.g. '^C0[1-6]').
 # In a `vp run --with-repo` snapshot: VERIF_REPO=$VP_RUN_REPO tools/seed_table.sh (runs setup.sh first when nothing is built)
 cd "$(dirname "$0")/.."
 [ -x lean/.lake/build/bin/driver ] || ./setup.sh >/dev/null 2>&1 || { echo "setup failed"; exit 2; }
-for d in seeded/*/; do id=$(basename $d); prop=${id%-*}; r=$(tools/seed_check.sh $id $prop 2>&1 | tail -1); echo "$r"; done
+for d in seeded/*/; do id=$(basename $d); [[ "$id" =~ ${1:-.} ]] || continue; prop=${id%-*}; r=$(tools/seed_check.sh $id $prop 2>&1 | tail -1); echo "$r"; done
